@@ -54,6 +54,25 @@ def perturbations(desc, tier):
         else:
             kd = dict(k.opt)[n]
             yield "attr-added", (tag, attrs + ((n, G.default_of(kd)),), text, children)
+            # present-but-falsy values are still present: "" for free attributes, numeric zeros for numbers
+            for fv in ("",) if kd == G.K_FREE else (0, 0.0, "0"):
+                yield "attr-added-falsy", (tag, attrs + ((n, fv),), text, children)
+    # child-level optional attributes and numeric zeros as child values
+    for ci, (ct, ca, ctext) in enumerate(children):
+        p = G.PARTS[ct]
+        cpresent = {n for n, _ in ca}
+        pos = "last" if ci == len(children) - 1 else "index<last"
+        for n, kd in p.opt:
+            if n not in cpresent:
+                ch = list(children)
+                ch[ci] = (ct, ca + ((n, ""),), ctext)
+                yield "child-attr-added-falsy@" + pos, (tag, attrs, text, tuple(ch))
+        if p.text == G.K_NUM and ctext is not None:
+            for fv in (0, 0.0):
+                if str(fv) != str(ctext):
+                    ch = list(children)
+                    ch[ci] = (ct, ca, fv)
+                    yield "child-value-zero@" + pos, (tag, attrs, text, tuple(ch))
     if k.text and text is not None:
         pass  # text is required for enableBLOB; dropping it is not constructible
     for i in range(len(children)):
